@@ -41,7 +41,11 @@ let judge_value ?(extra = "") spec xasis got =
   match spec, got with
   | Ok s, [ "ok"; n; d ] ->
     let r = (z n, z d) in
-    if Zar.sign (snd r) > 0 && veqb r s then pass ~extra:(fid rat_s xasis got ^ " " ^ extra) ()
+    if Zar.sign (snd r) > 0 && veqb r s then
+      (* informational only (the property demands the value): does the stored pair still share a factor two? *)
+      let even v = Zar.equal (Zar.logand v Zar.one) Zar.zero in
+      let c2 = if even (fst r) && even (snd r) then " cls=relaxed-common-two" else " cls=relaxed-no-common-two" in
+      pass ~extra:(fid rat_s xasis got ^ " " ^ extra ^ c2) ()
     else fail ("value " ^ rat_s s)
   | Ok s, _ -> fail ("value " ^ rat_s s)
   | Err _, "err" :: _ -> pass ~extra:(fid_err xasis got) ()
